@@ -329,7 +329,7 @@ for _f in (Bed12(), ChromSizes(), Gff3(), Gfa(), Pairs(), Wig()):
 
 
 _ID = ['c', 'chr10', 'a_much_longer_identifier{i}']
-_COORD = ['0', '7', '10', '12345', '007', '1234567890123']
+_COORD = ['0', '7', '10', '4294967296', '007', '1234567890123']      # 4294967296: ten digits, beyond every 32-bit integer
 _SIGNED = ['0', '7', '-3', '+5', '007', '-12345', '100000']
 _FLOAT = ['0.5', '-2.25', '10', '1e3', '2.5e-3', '0', '-0.0625']
 _STRAND = ['+', '-', '.']
